@@ -74,10 +74,16 @@ Proof.
   intros t1 t2 rho lt cm1 cm2 w He Hm Hl. destruct (embeds_spec t1 t2 rho He) as [A B].
   exact (import_wild_embed t1 t2 rho A B lt cm1 cm2 Hm w Hl).
 Qed.
-(* PARTIAL: that the table do_aggregate_audits writes embeds EVERY list of sources (first definition kept, a
-   differing re-definition refused: C16_definition_conflict_iff) is a statement about criteria NAMES and is not
-   proved for all inputs; [embeds] is instead evaluated, on every aggregate case of every run, between each
-   source's table and the table the REAL command wrote (tools/agg_embed.py). *)
+(* ... and, stated on criterion NAMES: when the aggregation reports no error, the criteria table it writes defines
+   every criterion of every source exactly as that source does (same description, description-url and implies
+   list) — for every list of sources.  [embeds] above is the same fact after names have been turned into table
+   positions; that step (interning) is done by the harness and is re-checked on every aggregate case of every run
+   between each source's table and the table the REAL command wrote (tools/agg_embed.py). *)
+Theorem C16_aggregate_defines_every_source_criterion : forall sources,
+  snd (aggregate sources) = [] ->
+  forall src f c, In (src, f) sources -> In c (af_criteria f) ->
+    exists m, In m (af_criteria (fst (aggregate sources))) /\ ac_name m = ac_name c /\ same_def m c = true.
+Proof. exact aggregate_defines_every_source_criterion. Qed.
 
 (* the embedding hypothesis is satisfiable and not the identity: the source has one criterion (index 2)
    implying safe-to-deploy; in the merged table it sits at index 3 behind another source's criterion *)
@@ -113,3 +119,4 @@ Print Assumptions C16_importing_the_aggregate_gives_the_same_verdict.
 Print Assumptions C16_verdict_depends_only_on_the_record_sets.
 Print Assumptions C16_entry_means_the_same_in_the_aggregate.
 Print Assumptions C16_wildcard_means_the_same_in_the_aggregate.
+Print Assumptions C16_aggregate_defines_every_source_criterion.
